@@ -312,6 +312,59 @@ fn validate_tag_silent_rules<'a, 'i: 'a>(rules: &'a [ParserRule<'i>]) -> Vec<Err
     result
 }
 
+/// What `is_non_failing` / `is_non_progressing` found for the rules evaluated so far. The verdict on a
+/// rule depends on the trace only through the rules its evaluation looked up being on the trace or not,
+/// so it is kept together with that and reused whenever the current trace answers the same way: every
+/// rule is then evaluated once, however often it is mentioned (chains of rules that mention the next one
+/// twice used to double the work per link).
+#[derive(Default)]
+struct Memo {
+    done: HashMap<String, (bool, Vec<(String, bool)>)>,
+    log: Vec<String>,
+}
+
+impl Memo {
+    fn looked_up(&mut self, ident: &str) {
+        self.log.push(ident.to_owned());
+    }
+
+    fn mark(&self) -> usize {
+        self.log.len()
+    }
+
+    fn get(&mut self, ident: &str, trace: &[String]) -> Option<bool> {
+        let (result, seen) = self.done.get(ident)?;
+        if seen
+            .iter()
+            .all(|(name, on_trace)| trace.contains(name) == *on_trace)
+        {
+            self.log.extend(seen.iter().map(|(name, _)| name.clone()));
+            Some(*result)
+        } else {
+            None
+        }
+    }
+
+    /// `trace` is the trace the rule was entered with (the rule itself already popped).
+    fn insert(&mut self, ident: &str, mark: usize, trace: &[String], result: bool) {
+        let mut names: Vec<String> = self.log[mark..]
+            .iter()
+            .filter(|name| *name != ident)
+            .cloned()
+            .collect();
+        names.sort();
+        names.dedup();
+        let seen = names
+            .into_iter()
+            .map(|name| {
+                let on_trace = trace.contains(&name);
+                (name, on_trace)
+            })
+            .collect();
+        self.done.insert(ident.to_owned(), (result, seen));
+    }
+}
+
 /// Checks if `expr` is non-progressing, that is the expression does not
 /// consume any input or any stack. This includes expressions matching the empty input,
 /// `SOI` and ̀ `EOI`, predicates and repetitions.
@@ -334,6 +387,15 @@ fn is_non_progressing<'i>(
     rules: &HashMap<String, &ParserNode<'i>>,
     trace: &mut Vec<String>,
 ) -> bool {
+    non_progressing(expr, rules, trace, &mut Memo::default())
+}
+
+fn non_progressing<'i>(
+    expr: &ParserExpr<'i>,
+    rules: &HashMap<String, &ParserNode<'i>>,
+    trace: &mut Vec<String>,
+    memo: &mut Memo,
+) -> bool {
     match *expr {
         ParserExpr::Str(ref string) | ParserExpr::Insens(ref string) => string.is_empty(),
         ParserExpr::Ident(ref ident) => {
@@ -341,11 +403,17 @@ fn is_non_progressing<'i>(
                 return true;
             }
 
+            memo.looked_up(ident);
             if !trace.contains(ident) {
                 if let Some(node) = rules.get(ident) {
+                    if let Some(result) = memo.get(ident, trace) {
+                        return result;
+                    }
+                    let mark = memo.mark();
                     trace.push(ident.clone());
-                    let result = is_non_progressing(&node.expr, rules, trace);
+                    let result = non_progressing(&node.expr, rules, trace, memo);
                     trace.pop().unwrap();
+                    memo.insert(ident, mark, trace, result);
 
                     return result;
                 }
@@ -371,12 +439,12 @@ fn is_non_progressing<'i>(
             false
         }
         ParserExpr::Seq(ref lhs, ref rhs) => {
-            is_non_progressing(&lhs.expr, rules, trace)
-                && is_non_progressing(&rhs.expr, rules, trace)
+            non_progressing(&lhs.expr, rules, trace, memo)
+                && non_progressing(&rhs.expr, rules, trace, memo)
         }
         ParserExpr::Choice(ref lhs, ref rhs) => {
-            is_non_progressing(&lhs.expr, rules, trace)
-                || is_non_progressing(&rhs.expr, rules, trace)
+            non_progressing(&lhs.expr, rules, trace, memo)
+                || non_progressing(&rhs.expr, rules, trace, memo)
         }
         // WARNING: the predicate indeed won't make progress on input but  it
         // might progress on the stack
@@ -400,14 +468,14 @@ fn is_non_progressing<'i>(
         ParserExpr::RepExact(ref inner, min)
         | ParserExpr::RepMin(ref inner, min)
         | ParserExpr::RepMinMax(ref inner, min, _) => {
-            min == 0 || is_non_progressing(&inner.expr, rules, trace)
+            min == 0 || non_progressing(&inner.expr, rules, trace, memo)
         }
-        ParserExpr::Push(ref inner) => is_non_progressing(&inner.expr, rules, trace),
+        ParserExpr::Push(ref inner) => non_progressing(&inner.expr, rules, trace, memo),
         #[cfg(feature = "grammar-extras")]
         ParserExpr::PushLiteral(_) => true,
-        ParserExpr::RepOnce(ref inner) => is_non_progressing(&inner.expr, rules, trace),
+        ParserExpr::RepOnce(ref inner) => non_progressing(&inner.expr, rules, trace, memo),
         #[cfg(feature = "grammar-extras")]
-        ParserExpr::NodeTag(ref inner, _) => is_non_progressing(&inner.expr, rules, trace),
+        ParserExpr::NodeTag(ref inner, _) => non_progressing(&inner.expr, rules, trace, memo),
     }
 }
 
@@ -430,14 +498,29 @@ fn is_non_failing<'i>(
     rules: &HashMap<String, &ParserNode<'i>>,
     trace: &mut Vec<String>,
 ) -> bool {
+    non_failing(expr, rules, trace, &mut Memo::default())
+}
+
+fn non_failing<'i>(
+    expr: &ParserExpr<'i>,
+    rules: &HashMap<String, &ParserNode<'i>>,
+    trace: &mut Vec<String>,
+    memo: &mut Memo,
+) -> bool {
     match *expr {
         ParserExpr::Str(ref string) | ParserExpr::Insens(ref string) => string.is_empty(),
         ParserExpr::Ident(ref ident) => {
+            memo.looked_up(ident);
             if !trace.contains(ident) {
                 if let Some(node) = rules.get(ident) {
+                    if let Some(result) = memo.get(ident, trace) {
+                        return result;
+                    }
+                    let mark = memo.mark();
                     trace.push(ident.clone());
-                    let result = is_non_failing(&node.expr, rules, trace);
+                    let result = non_failing(&node.expr, rules, trace, memo);
                     trace.pop().unwrap();
+                    memo.insert(ident, mark, trace, result);
 
                     result
                 } else {
@@ -470,10 +553,10 @@ fn is_non_failing<'i>(
         ParserExpr::Rep(_) => true,
         ParserExpr::RepMax(_, _) => true,
         ParserExpr::Seq(ref lhs, ref rhs) => {
-            is_non_failing(&lhs.expr, rules, trace) && is_non_failing(&rhs.expr, rules, trace)
+            non_failing(&lhs.expr, rules, trace, memo) && non_failing(&rhs.expr, rules, trace, memo)
         }
         ParserExpr::Choice(ref lhs, ref rhs) => {
-            is_non_failing(&lhs.expr, rules, trace) || is_non_failing(&rhs.expr, rules, trace)
+            non_failing(&lhs.expr, rules, trace, memo) || non_failing(&rhs.expr, rules, trace, memo)
         }
         // it either always fail
         // or always match at least a character
@@ -489,20 +572,20 @@ fn is_non_failing<'i>(
         ParserExpr::RepExact(ref inner, min)
         | ParserExpr::RepMin(ref inner, min)
         | ParserExpr::RepMinMax(ref inner, min, _) => {
-            min == 0 || is_non_failing(&inner.expr, rules, trace)
+            min == 0 || non_failing(&inner.expr, rules, trace, memo)
         }
         // BUG: the predicate may always fail, resulting in this expr non_failing
         // ex of always failing predicates :
         //     @{EOI ~ ANY | ANY ~ SOI | &("A") ~ &("B") | 'z'..'a'}
         ParserExpr::NegPred(_) => false,
-        ParserExpr::RepOnce(ref inner) => is_non_failing(&inner.expr, rules, trace),
+        ParserExpr::RepOnce(ref inner) => non_failing(&inner.expr, rules, trace, memo),
         ParserExpr::Push(ref inner) | ParserExpr::PosPred(ref inner) => {
-            is_non_failing(&inner.expr, rules, trace)
+            non_failing(&inner.expr, rules, trace, memo)
         }
         #[cfg(feature = "grammar-extras")]
         ParserExpr::PushLiteral(_) => true,
         #[cfg(feature = "grammar-extras")]
-        ParserExpr::NodeTag(ref inner, _) => is_non_failing(&inner.expr, rules, trace),
+        ParserExpr::NodeTag(ref inner, _) => non_failing(&inner.expr, rules, trace, memo),
     }
 }
 
